@@ -1108,13 +1108,14 @@ class MoneyConverter:
         # create all rates before anything is changed, so that an invalid
         # entry does not leave the converter partially updated
         base_currency = self._base_currency
-        items = [((validity, term_currency),
-                  ExchangeRate(base_currency, unit_multiple, term_currency,
-                               term_amount))
+        rates = [ExchangeRate(base_currency, unit_multiple, term_currency,
+                              term_amount)
                  for term_currency, term_amount, unit_multiple in rate_specs]
-        # update internal dict
+        # update internal dict (keyed by the currency, even if it was given
+        # as ISO code)
         self._type_of_validity = type(validity)
-        self._rate_dict.update(items)
+        self._rate_dict.update(((validity, rate.term_currency), rate)
+                               for rate in rates)
 
     def get_rate(self, unit_currency: Currency, term_currency: Currency,
                  effective_date: Optional[date] = None) \
